@@ -44,16 +44,19 @@ CLAIMS = {
             "refinement proof + 61-entry data equality by kernel computation (Coq)", NOTE_TIE_ABC, "7 C14"),
     "C15": ("sensitive field: encoder unchanged and never-indexed literal or exact index (both paths of Encoder.add); decoder: never-indexed class and no insertion exactly for the 0001 pattern",
             "case lemmas on both encoder paths and the decoder (Coq)", NOTE_TIE_ABC + NOTE_TIE_D, "7 C15"),
+    "C16": ("PARTIAL. Proved: decode_integer never reads more than 21 octets nor returns a value >= 2^141 (over-long integers refused, not accumulated); the block loop advances by >= 1 octet per iteration; evictions are amortised; a cost model mirroring the RFC decoder's control flow (to which decode() is proved equal, C02) is bounded by 4|block| + table entries + 1. Not provable in Coq: CPU time, CPython's big-integer and allocator behaviour; measured instead on the real code for 13 input shapes at n/2n/4n (executed lines under settrace, largest shift in decode_integer, octets copied into helper arguments, CPU time ratio)",
+            "cost-model linear bound + integer-length bounds (Coq), run-time measurements as the tie", NOTE_TIE_ABC + NOTE_TIE_D + "The unit costs of Model/Cost.v (one step per octet consumed / entry evicted) are a MODEL of the Python code's cost. ", "7 C16"),
+    "C17": ("PARTIAL. Proved on a provenance-annotated copy of the decoder model (erasure theorem: it IS the decoder model): after every history every retained table entry and every returned field is an owned object, tags stay parallel to the table, retained octets <= maxsize - 32*entries; the pre-repair code is refuted (D5). Not provable in Coq: that CPython objects tagged Owned do not alias the buffer and that nothing else keeps it alive; checked on the real code (types of retained/returned objects, reference count of the buffer before/after decode incl. after raise, resizability of bytearray input, later blocks after overwriting the buffer)",
+            "provenance abstraction with invariant over histories (Coq), run-time aliasing checks as the tie", NOTE_TIE_ABC + NOTE_TIE_D + "Python's aliasing rules for memoryview/bytes/slices are trusted (Model/Prov.v header). ", "7 C17"),
+    "C18": ("argument handling of Encoder.encode (forms, text/bytes, list/iterator/dict with a stable sort on the colon key) = the canonical sequence; decoder raw/text modes: identical state, same fields, text fails only on non-UTF-8",
+            "normal-form theorem over API forms (Coq)", NOTE_TIE_ABC + NOTE_TIE_D + "Trusted: stability of sorted(), dict insertion order, str.encode('utf-8') (text is represented by its UTF-8 bytes). ", "7 C18"),
+    "C20": ("PARTIAL. Proved: frame theorem for a world of instances (any interleaving: outputs and final state of instance i = its own sub-history run alone; others untouched); in the model shared data are immutable constants and outputs are functions of configuration and history. The tie to the code: a fail-closed source purity check (no function writes to module/class-level objects or their aliases, instance state created in __init__, no hash/id/time/logging-level dependence) and real runs isolated vs interleaved vs DEBUG logging vs other PYTHONHASHSEED vs fresh process, with a digest of all shared objects before/after. Not provable: interpreter-level sharing outside hpack",
+            "non-interference (frame) theorem (Coq) + source purity check + differential runs", NOTE_TIE_ABC + NOTE_TIE_D, "7 C20"),
     "C19": ("addressable (name, value) incl. empty value => one indexed representation, encoder unchanged; repeated block all indexed",
             "proof from search completeness (Coq)", NOTE_TIE_ABC + NOTE_TIE_D, "7 C19"),
 }
 
-NOT_APPLICABLE = [
-    {"property_id": "C16", "reason": "not claimed yet: the instrumented cost model and its linear-bound theorem are not built in this revision (the D4 defect behind it is repaired and the per-call time limit of the C04 oracle would report non-termination)"},
-    {"property_id": "C17", "reason": "not claimed yet: the provenance model (Model/Prov.v) is not built in this revision (the D5 defect behind it is repaired; the correspondence harness already flags any non-bytes table entry)"},
-    {"property_id": "C18", "reason": "not claimed yet: the API-forms model (Model/Api.v) is not built in this revision"},
-    {"property_id": "C20", "reason": "not claimed yet: the multi-instance world model and the source purity check are not built in this revision"},
-]
+NOT_APPLICABLE = []
 
 
 def main():
